@@ -62,6 +62,18 @@ def push (env : Env) (v : Vec) (id : Id) : M (Out Unit) :=
     | .error e => .error e
     | .ok v => .ok ⟨setLen v (v.len + 1), .ret (), []⟩
 
+/-- `push_with(f)` (`bump_vec.rs` l.1229 → `generic_push_mut_with(f)`): `self.generic_reserve_one()?;
+    self.push_mut_unchecked(f())` — when the reservation is refused `f` is never called: no value exists -/
+def pushWith (env : Env) (v : Vec) (id : Id) : M (Out Unit) :=
+  match reserveOne env v with
+  | none => .ok ⟨v, .panic false, []⟩
+  | some _ => push env v id
+
+/-- the `try_*` twin of an operation whose reservation is refused returns `Err(_)`; its by-value arguments are
+    then dropped as ordinary locals — NOT by an unwind — so a panicking destructor among them does panic -/
+def tryRefusedExit (bombs : List Id) (args : List Id) : Exit Unit :=
+  if args.any bombs.contains then .panic true else .panic false
+
 /-- `generic_insert_mut` — `fixed_bump_vec.rs` l.1215-1240, `bump_vec.rs` l.1433-1461 -/
 def insert (env : Env) (v : Vec) (index : Nat) (id : Id) : M (Out Unit) :=
   if index > v.len then .ok ⟨dropArg v id, .panic false, []⟩  -- `assert_failed`; `element` dropped by the unwind
@@ -177,6 +189,15 @@ def reserveExact (env : Env) (v : Vec) (additional : Nat) : Option Vec :=
 def shrinkToFit (env : Env) (v : Vec) : Vec :=
   if v.cap ≤ v.len then v
   else if env.capIn = v.len then { v with slots := v.slots.take v.len }
+  else v
+
+/-- `BumpVec::shrink_to(min_capacity)` (`bump_vec.rs` l.2836-2857): `new_cap = max(len, min_capacity)`; nothing to
+    do unless `new_cap < cap`; then the allocator is asked (`shrink_slice`), and when it agrees (the vector is
+    the last allocation; observed: `capIn`) the pointer IT returns and `new_cap` are stored -/
+def shrinkTo (env : Env) (v : Vec) (minCapacity : Nat) : Vec :=
+  let newCap := max v.len minCapacity
+  if v.cap ≤ newCap then v
+  else if env.capIn = newCap then { v with slots := v.slots.take newCap }
   else v
 
 /-- `generic_resize_with(new_len, f)` — `fixed_bump_vec.rs` l.1819-1831, `bump_vec.rs` l.2162-2174: grows
